@@ -160,7 +160,7 @@ class Context:
         return code, lines
 
     def _write_replay(self, ob):
-        d = os.path.join(VERIF, 'out', 'replay', self.pid)
+        d = os.path.join(os.environ.get('VERIF_OUT') or os.path.join(VERIF, 'out'), 'replay', self.pid)
         os.makedirs(d, exist_ok=True)
         path = os.path.join(d, _slug('%s-%s%s' % (ob.rule, ob.construct, '-' + str(ob.config) if ob.config else ''))
                             + '.json')
@@ -175,6 +175,8 @@ class Context:
         return path
 
     def _write_evidence(self, n_ob, n_ok, violations, known_hits, undecided, st):
+        if os.environ.get('VERIF_NO_EVIDENCE'):
+            return
         os.makedirs(os.path.join(VERIF, 'evidence'), exist_ok=True)
         samples = []
         for ob in self.obligations:
